@@ -18,6 +18,9 @@ From Coq Require Import List NArith ZArith.
 From Coq.Strings Require Import Byte.
 From SP Require Import Bytes Params Msgpack Crypto Errors Packets Chunker Rand Verify Encrypt Decrypt Signcrypt
      SignAuthProofs ScAuthProofs ScAuthLocated.
+From SP Require Import Nonce Packets Signcrypt GoLang GoAst GoAstProofs GoAstProofs2.
+From Coq Require String.
+Import String.StringSyntax.
 Import ListNotations.
 Open Scope N_scope.
 
@@ -48,6 +51,32 @@ Theorem C04_all_at_once (kr : keyring) (signers : sigring) (rv : resolver) (inpu
 Proof. exact (signcrypt_authentic_all_located c Hsha kr signers rv input pk pt M others). Qed.
 End C04.
 
+(* SOURCE TIE: the terms f_saltpack_* are generated on every run from the Go syntax trees of
+   /repo (harness/cmd/gen/goast.go); under the Go semantics of model/GoLang.v, with the standard
+   library / NaCl primitives interpreted by ext_prims over the crypto record and calls to other
+   saltpack functions interpreted by the model (each of those has its own such theorem), they
+   compute exactly what the model says, for ALL arguments and EVERY instance of the primitives. *)
+Theorem C04_source_signcrypt_processBlock (c : crypto) (pkey hh : bytes) (signer : option bytes) (n : N) (ct : bytes) (final : bool) :
+  (n < 18446744073709551615)%N \/ (n = 18446744073709551615)%N ->
+  g_block_result (run_func (ext_model c) f_saltpack_signcryptOpenStream_processBlock
+                   [g_sc_state pkey hh signer; VBytes ct; VBool final; VInt (Z.of_N n + 1)])
+  = sc_block_step c pkey hh signer n ct final.
+Proof. exact (go_signcrypt_processBlock c pkey hh signer n ct final). Qed.
+
+Theorem C04_source_computeSigncryptionSignatureInput (c : crypto) (hh nonce chunk : bytes) (final : bool) :
+  run_func (ext_prims c) f_saltpack_computeSigncryptionSignatureInput [VBytes hh; VBytes nonce; VBool final; VBytes chunk]
+  = ORet [VBytes (signcrypt_sig_input c hh nonce final chunk)].
+Proof. exact (go_computeSigncryptionSignatureInput c hh nonce chunk final). Qed.
+
+Theorem C04_source_nonceForChunkSigncryption (c : crypto) (hh : bytes) (final : bool) (i : N) :
+  (16 <= List.length hh)%nat -> (i < 18446744073709551616)%N ->
+  run_func (ext_prims c) f_saltpack_nonceForChunkSigncryption [VBytes hh; VBool final; VInt (Z.of_N i)]
+  = ORet [VBytes (nonce_chunk_signcryption hh final i)].
+Proof. exact (go_nonceForChunkSigncryption c hh final i). Qed.
+
+Print Assumptions C04_source_signcrypt_processBlock.
+Print Assumptions C04_source_computeSigncryptionSignatureInput.
+Print Assumptions C04_source_nonceForChunkSigncryption.
 Print Assumptions C04_authentic.
 Print Assumptions C04_all_at_once.
 
